@@ -21,6 +21,7 @@ def showVal : Val → String
   | .rest bs => "r" ++ toHex bs
   | .names l => "n" ++ showNames l
   | .mpint n => "i" ++ toString n
+  | .bad _ => "x"
 
 def showVals (vs : List Val) : String :=
   if vs.isEmpty then "-" else ";".intercalate (vs.map showVal)
@@ -52,6 +53,7 @@ def parseVal (s : String) : Option Val :=
     | 'r' => (ofHex p).map .rest
     | 'n' => if p == "-" then some (.names []) else ((p.splitOn ",").mapM parseName).map .names
     | 'i' => p.toInt?.map .mpint
+    | 'x' => if p.isEmpty then some (.bad false) else none
     | _ => none
 
 def parseVals (s : String) : Option (List Val) :=
@@ -60,6 +62,20 @@ def parseVals (s : String) : Option (List Val) :=
 def showKind : Kind → String
   | .bool => "b" | .arr n => "a" ++ toString n | .u8 => "c" | .u32 => "u" | .u64 => "q"
   | .str => "s" | .bytes => "y" | .rest => "r" | .names => "n" | .mpint => "i"
+  | .bad p => if p then "xp" else "xs"
+
+/-- the driver's typing of a value list: a field of unsupported type carries the placeholder `x` -/
+def typedDrv : List Val → List Kind → Bool
+  | [], [] => true
+  | .bad _ :: vs, .bad _ :: ks => typedDrv vs ks
+  | v :: vs, k :: ks => v.hasKind k && typedDrv vs ks
+  | _, _ => false
+
+/-- give every placeholder the `panics` flag of its field -/
+def fixBad : List Val → List Kind → List Val
+  | .bad _ :: vs, .bad p :: ks => .bad p :: fixBad vs ks
+  | v :: vs, _ :: ks => v :: fixBad vs ks
+  | vs, _ => vs
 
 /-- caller-memory contract of Unmarshal (what the code does): the input is never written (`mut=-`); `[]byte`
     fields are sub-slices of the input and a `rest` field is its tail — they alias the caller's buffer — while
@@ -96,8 +112,8 @@ def handle (line : String) : String :=
   | "ms" =>
     match schemaOf (o.str "t"), (o.get? "v").bind parseVals with
     | some s, some vs =>
-      if !(s.fields.isEmpty) && !(typed vs s.fields) then "bad-op" else
-      match marshal s vs with
+      if !(s.fields.isEmpty) && !(typedDrv vs s.fields) then "bad-op" else
+      match marshal s (fixBad vs s.fields) with
       | none => "panic"
       | some b => s!"{toHex b} mut=- rt={showUm (unmarshal s b)}"
     | _, _ => "bad-op"
